@@ -359,6 +359,7 @@ func checkC12(w *World, r *Report) {
 	r.floor("call sites of the macro choke point", n4, 1)
 	checkParserDoesNotEvaluate(w, r)
 	checkImportsRenderLibrary(w, r, "R12.7")
+	checkMacroKeepsDeclaration(w, r)
 	checkChainWalkBounds(w, r, "R12.8")
 }
 
@@ -1040,4 +1041,67 @@ func checkImportsRenderLibrary(w *World, r *Report, rule string) {
 		}
 	}
 	r.Counts["import directives checked for rendering the library"] = n
+}
+
+// checkMacroKeepsDeclaration — R12.9: a macro node holds what the parser collected.  Every store
+// into MacroNode.params / defaults / body is, on every edge, a parameter of the storing function
+// (the constructor's argument), nil or the field's own earlier content — never a container built
+// or filtered from the arguments: the defaults of a macro are looked up by parameter name when it
+// is called, so a default that a constructor decided not to keep binds null.
+func checkMacroKeepsDeclaration(w *World, r *Report) {
+	n := 0
+	for _, fn := range w.pkgFuncs() {
+		instrsOf(fn, func(in ssa.Instruction) {
+			st, ok := in.(*ssa.Store)
+			if !ok {
+				return
+			}
+			fa, ok := st.Addr.(*ssa.FieldAddr)
+			if !ok {
+				return
+			}
+			t, f := fieldOfAddr(fa)
+			if t != "MacroNode" || (f != "params" && f != "defaults" && f != "body") {
+				return
+			}
+			n++
+			bad := ""
+			var walk func(v ssa.Value, seen map[ssa.Value]bool)
+			walk = func(v ssa.Value, seen map[ssa.Value]bool) {
+				v = unspill(v)
+				if seen[v] || bad != "" {
+					return
+				}
+				seen[v] = true
+				switch x := v.(type) {
+				case *ssa.Parameter, *ssa.Const:
+				case *ssa.Phi:
+					for _, e := range x.Edges {
+						walk(e, seen)
+					}
+				case *ssa.Slice:
+					// n.params[:0] in a release function keeps the storage, drops the content
+					if _, ok := fieldLoad(unspill(x.X), "MacroNode", f); ok {
+						return
+					}
+					bad = v.String()
+				case *ssa.UnOp:
+					if _, ok := fieldLoad(x, "MacroNode", f); ok {
+						return
+					}
+					bad = v.String()
+				default:
+					bad = v.Name() + " = " + v.String()
+				}
+			}
+			walk(st.Val, map[ssa.Value]bool{})
+			construct := "MacroNode." + f + " is what the constructor was given"
+			if bad == "" {
+				r.ok("R12.9", ssaName(fn), construct, w.posOf(in.Pos()), "a parameter, nil, or the field's own storage", true)
+			} else {
+				r.bad("R12.9", ssaName(fn), construct, w.posOf(in.Pos()), "the macro node stores a value computed from its arguments ("+bad+") instead of the argument itself: whatever the computation leaves out — a default in front of a parameter without one, say — is not there when the macro is called, and the parameter binds null")
+			}
+		})
+	}
+	r.floor("stores into a macro node's declaration fields", n, 3)
 }
